@@ -131,5 +131,10 @@ func MakeUpdown(r *fw.Rng, p UpdownProfile) UpdownInput {
 		}
 		in.Targets = append(in.Targets, FastaRec{ID: fmt.Sprintf("target%d", i), Desc: fmt.Sprintf("target%d", i), Seq: s})
 	}
+	if r.Chance(0.15) {
+		// one target carries the name of a query
+		k, j := r.Intn(nq), r.Intn(nt)
+		in.Targets[j].ID, in.Targets[j].Desc = in.Queries[k].ID, in.Queries[k].Desc
+	}
 	return in
 }
